@@ -143,7 +143,7 @@ class HSInit(Harness):
             return out
         if cons:
             out.ob("accepted_snapped_x0_feasible", O.And(*[O.Not(a) for _, ans in cons_calls for a in ans]))
-            out.ob("snapped_x0_feasibility_checked", len(cons_calls) == 1)
+            out.ob("snapped_x0_feasibility_checked", len(cons_calls) >= 1)
         mesh = st["search_mesh_size"]
         tl, tu = np.asarray(_raw(self_.lower_bounds)), np.asarray(_raw(self_.upper_bounds))
         U0 = np.asarray(_raw(self_.u))
